@@ -365,6 +365,11 @@ func report(p *Program, id string, cfg *PropCfg, res *checkResult, tier string, 
 				fmt.Printf("UNDECIDED: property=%s %s (not counted as discharged, not a violation): %s\n", id, o.Name, truncate(u.Reason, 160))
 				continue
 			}
+			if o.Status == "skipped" {
+				// tried with a reduced budget only, after other obligations of this run had already ended undischarged
+				fmt.Printf("SKIPPED: property=%s %s (reduced budget after earlier violations in this run; neither counted nor reported as a violation)\n", id, o.Name)
+				continue
+			}
 			total++
 			if o.Status == "proved" {
 				discharged++
